@@ -482,7 +482,7 @@ def gen_multi_axis(tier, rng):
                     pools = [axis_pool(shape[ax], rng, tier) for ax in axes]
                     # entry kind pattern: integer or range per explicit axis
                     for pat in itertools.product('ir', repeat=nexp):
-                        nsamp = 2 if tier == 'quick' else 4
+                        nsamp = 2 if tier == 'quick' else 8
                         for s in range(nsamp):
                             es = []
                             offdom = (s == nsamp - 1) and 'r' in pat
@@ -531,7 +531,7 @@ def gen_int_exhaustive(tier):
 
 def gen_large(tier, rng):
     """extents up to 2^31: shape function + one mapped destination index (no storage)"""
-    cnt = 150 if tier == 'quick' else 1500
+    cnt = 150 if tier == 'quick' else 4000
     specials = [2 ** 24 - 1, 2 ** 24, 2 ** 24 + 1, 2 ** 24 + 3, 2 ** 25 + 2, 2 ** 31 - 1, 2 ** 31 - 64, 2 ** 31 - 129, 2 ** 30 + 1, 10 ** 6 + 3, 2 ** 20]
     for t in range(cnt):
         n = specials[t] if t < len(specials) else (rng.randrange(2 ** 16, 2 ** 24) if t % 3 else rng.randrange(2 ** 24, 2 ** 31))
@@ -584,13 +584,20 @@ def post(cases, tier):
     IMPL differs from the oracle (the runner reports only the oracle difference there); and on Dom the model must have a value."""
     out = []
     bad = [c for c in cases if c.mans is not None and c.impl is not None and c.impl != 'no-harness' and c.mans != 'unmodelled' and c.impl != c.mans]
-    if bad:
-        bad.sort(key=lambda c: (len(c.req), c.req))
-        c = bad[0]
-        out.append(('correspondence', 'IMPL and Lean MODEL disagree on %d inputs (model mirrors the code also off-domain), e.g. %s impl=%s model=%s oracle=%s' % (
-            len(bad), c.req, c.impl, c.mans, c.oracle),
-            {'cases': [{'req': c.req, 'harness': c.harness, 'dom': c.dom, 'oracle': c.oracle, 'impl_answer': c.impl, 'model_answer': c.mans} for c in bad[:20]],
-             'count': len(bad)}, False))
+    cj = lambda c: {'req': c.req, 'harness': c.harness, 'dom': c.dom, 'oracle': c.oracle, 'impl_answer': c.impl, 'model_answer': c.mans}
+    # (a) IMPL wrong in a way the model does not mirror: a new kind of disagreement inside a known class -> failing input
+    new_fail = sorted([c for c in bad if c.oracle is not None and c.impl != c.oracle], key=lambda c: (len(c.req), c.req))
+    if new_fail:
+        c = new_fail[0]
+        out.append(('property-fails', 'IMPL differs from Python AND from the mirrored model on %d inputs (a disagreement of a new kind; known-finding classes '
+                    'only cover the mirrored behaviour), e.g. %s impl=%s model=%s expected=%s' % (len(new_fail), c.req, c.impl, c.mans, c.oracle),
+                    {'cases': [cj(c) for c in new_fail[:20]], 'count': len(new_fail)}, False))
+    # (b) IMPL agrees with Python but not with the model: the model no longer mirrors the code (e.g. a defect was repaired)
+    stale = sorted([c for c in bad if c.oracle is not None and c.impl == c.oracle], key=lambda c: (len(c.req), c.req))
+    if stale:
+        c = stale[0]
+        out.append(('correspondence', 'IMPL agrees with Python but not with the Lean MODEL on %d inputs (model and known findings are stale), e.g. %s impl=%s model=%s' % (
+            len(stale), c.req, c.impl, c.mans), {'cases': [cj(c) for c in stale[:20]], 'count': len(stale), 'correspondence': ANCHORS}, True))
     und = [c for c in cases if c.dom and c.mans == 'unmodelled']
     if und:
         c = und[0]
